@@ -397,6 +397,15 @@ func genGbCase(mode string) func(t *rapid.T) GbCase {
 		for i := 0; i < n; i++ {
 			c.Elems = append(c.Elems, genPsElem(t, &ts))
 		}
+		// a header-only PES as the very last bytes of the last RTP payload, its PTS_DTS_flags promising what the
+		// PES_header_data_length has no room for (seed c13-g: '11' with 5..9 header bytes -> DTS read behind the buffer)
+		if rapid.IntRange(0, 3).Draw(t, "tailPes") == 0 {
+			e := PsElem{Cut: -1, Kind: rapid.SampledFrom([]string{"video", "audio"}).Draw(t, "tailKind"), Es: "none", Ts: ts, Label: "pes-header-only-at-packet-end"}
+			e.Pts = rapid.SampledFrom([]int{1, 1, 2, 0}).Draw(t, "tailPts")
+			e.Stuff = rapid.SampledFrom([]int{0, 0, 1, 2, 4, 5}).Draw(t, "tailStuff")
+			e.Patches = []Patch{{Off: 7, Hex: rapid.SampledFrom([]string{"c0", "c0", "80", "40", "00"}).Draw(t, "tailFlags")}}
+			c.Elems = append(c.Elems, e)
+		}
 		nc := rapid.IntRange(0, 8).Draw(t, "nchunks")
 		for i := 0; i < nc; i++ {
 			c.Chunks = append(c.Chunks, rapid.SampledFrom([]int{0, 1, 2, 3, 4, 5, 6, 9, 13, 14, 20, 30, 100, 1400}).Draw(t, "chunk"))
@@ -707,6 +716,9 @@ func classifyGb(c GbCase) (bool, []string) {
 		}
 		if e.Kind == "raw" || e.Kind == "code" {
 			hostile = true
+		}
+		if e.Label == "pes-header-only-at-packet-end" && e.Pts == 1 && e.Stuff < 5 && len(e.Patches) == 1 && e.Patches[0].Hex == "c0" {
+			labels = append(labels, "ps:pes-dts-flag-with-5..9-header-bytes-at-packet-end")
 		}
 		if (e.Kind == "video" || e.Kind == "audio") && e.Pts == 0 {
 			labels = append(labels, "ps:pes-without-pts")
